@@ -1590,6 +1590,10 @@ func reverse(parser *Parser, openKind lexer.TokenKind, parseFn parseFn, closeKin
 	}
 	var nodes []interface{}
 	for {
+		if zinteger && len(nodes) == 0 && peek(parser, closeKind) {
+			// report the empty list before looking at what follows its closing token
+			return nodes, unexpectedEmpty(parser, token.Start, openKind, closeKind)
+		}
 		if skp, err := skip(parser, closeKind); err != nil {
 			return nil, err
 		} else if skp {
